@@ -14,4 +14,8 @@ def specs_secondq(tier):
     s += [(SQ, "unit_filter_terms", {"nmodes": a, "nconds": b, "timeout_ms": t}) for a, b in (((1, 1), (2, 2), (3, 1)) if tier == "thorough" else ((1, 1), (2, 2)))]
     s += [(SQ, "unit_apply_mask", {"timeout_ms": t})]
     s += [(SQ, "unit_operator_diag_offdiag", {"variant": v, "timeout_ms": t}) for v in ("dict", "list")]
+    # callee of solve_scalar: _cancel_binary_operator_numbers establishes the canonical-form invariant the solver relies on (layouts with ladder operators between
+    # the bosons and the binary modes: the slice of the powers that is paired with the binary operators matters)
+    for l in (["fermion"], ["ladder", "fermion"], ["boson", "ladder", "spin", "fermion"]) + ((["ladder", "spin"], ["boson", "ladder", "fermion", "fermion"]) if tier == "thorough" else ()):
+        s.append(("contracts.nof", "unit_cancel", {"layout": l, "timeout_ms": t}))
     return s
